@@ -1,0 +1,68 @@
+//go:build verif
+
+package kvstore
+
+// Contracts for Sequence (property C07), read by the verification machinery in /verif.
+// Comment-only file. Ghost state, for the one key a Sequence works on:
+//   mark   – the 8-byte big-endian number stored under the key (0 while the key is absent)
+//   absent – the key does not exist in the store
+//   hw     – first number never handed out by any Sequence object on this key, over all
+//            process lifetimes (so "never reused" is: every number returned is >= hw)
+// The global invariant is the crash invariant: it must hold after every store write and after
+// every hand-out, i.e. at every point where the owning process may stop. A restart is a new
+// Sequence object (next = reserved = 0) in an arbitrary state satisfying it.
+
+/*@
+global mark Int
+global hw Int
+global absent Bool
+global-invariant 0 <= hw && hw <= mark && (absent ==> mark == 0)
+
+type Sequence
+  monitor Mutex guards next, reserved, global:mark, global:hw, global:absent
+  invariant 0 <= hw && hw <= mark && (absent ==> mark == 0)
+  invariant self.reserved <= mark && self.interval > 0
+  invariant self.next < self.reserved ==> hw <= self.next
+
+-- the store, seen through the sequence's key
+func KVStore.Get(recv, key) (value, err)
+  ensures err == nil ==> !absent && len(value) >= 8 && be64(elems(value), off(value)) == mark
+  ensures is(err, ErrKeyNotFound) ==> absent
+
+func KVStore.Set(recv, key, value) (err)
+  modifies ghost(mark), ghost(absent)
+  ensures err == nil ==> !absent && mark == be64(elems(value), off(value))
+  ensures err != nil ==> mark == old(mark) && absent == old(absent)
+
+func NewSequence
+  panics-iff interval == 0
+  ensures r1 == nil && r0 != nil && fresh(r0)
+  ensures r0.next == 0 && r0.reserved == 0 && r0.interval == interval && interval > 0 && unlocked(r0.Mutex)
+
+func Sequence.Next
+  requires seq != nil && seq.store != nil && unlocked(seq.Mutex)
+  modifies seq.next, seq.reserved, ghost(mark), ghost(hw), ghost(absent)
+  ghost at return: assert r1 == nil ==> r0 >= hw          -- the number was never handed out before
+  ghost at return: hw = (r1 == nil ? r0 + 1 : hw)
+  ensures unlocked(seq.Mutex)
+
+func Sequence.update
+  requires seq != nil && seq.store != nil && held(seq.Mutex)
+  assumes mark + seq.interval < 18446744073709551616      -- the 64-bit counter is not exhausted
+  modifies seq.next, seq.reserved, ghost(mark), ghost(absent)
+  ensures held(seq.Mutex)
+  requires seq.reserved <= mark && seq.interval > 0
+  ensures seq.reserved <= mark
+  ensures r0 == nil ==> seq.next < seq.reserved && hw <= seq.next
+  ensures r0 != nil ==> seq.reserved == old(seq.reserved) && (seq.next == old(seq.next) || seq.next >= seq.reserved)
+  ensures r0 == nil ==> mark == old(mark) + seq.interval   -- a lease (and hence a crash) costs exactly one interval
+  ensures r0 != nil ==> mark == old(mark)
+  ensures hw == old(hw)
+  ensures 0 <= hw && hw <= mark && (absent ==> mark == 0)
+
+func Sequence.Release
+  requires seq != nil && seq.store != nil && unlocked(seq.Mutex)
+  modifies seq.next, seq.reserved, ghost(mark), ghost(hw), ghost(absent)
+  ensures unlocked(seq.Mutex)
+  ensures r0 == nil && old(seq.next) < old(seq.reserved) ==> true
+@*/
